@@ -4,6 +4,7 @@ package c18
 import (
 	"fmt"
 	"io"
+	"strings"
 	"testing"
 	"time"
 
@@ -390,8 +391,18 @@ func Run(cs Case, c *vrt.Ctx) {
 			// for the indented text and on a parser that has read other documents before
 			// other spellings of the same numbers (integer mantissa with an exponent, upper case
 			// exponent, trailing zeros): the two parsers finish a number in code of their own
-			for mode := 1; mode <= 3; mode++ {
-				rt := gx.RespellFloats([]byte(text), mode)
+			// ... and the indented text with CR LF line ends (and bare CR), respelled or not
+			crlf := strings.ReplaceAll(oj.JSON(tree, &ojg.Options{Sort: true, Indent: 2}), "\n", "\r\n")
+			cr := strings.ReplaceAll(oj.JSON(tree, &ojg.Options{Sort: true, Indent: 1}), "\n", "\r")
+			for mode := 1; mode <= 11; mode++ {
+				src := text
+				switch {
+				case mode >= 8:
+					src = cr
+				case mode >= 4:
+					src = crlf
+				}
+				rt := gx.RespellFloats([]byte(src), mode%4)
 				if string(rt) == text {
 					continue
 				}
